@@ -14,7 +14,9 @@ NEXT = 'deduplication::chunking::Chunker::next'
 def run(ctx):
     ctx.rule('R04a', 'every path through a Chunk construction in Chunker::next resets the rolling hash and cur_chunk_len before returning')
     ctx.rule('R04b', 'the emitted chunk\'s hash is compute_data_hash(chunkbuf) and its data is that same buffer, hash first; chunks are constructed only in Chunker::next')
+    ctx.rule('R04c', 'every bound computed in Chunker::next is relative to the open chunk: the minimum-size skip and the search window subtract cur_chunk_len, the skip is also limited by the input still unconsumed')
     ctx.guarded('R04a', NEXT, lambda: r04(ctx))
+    ctx.guarded('R04c', NEXT, lambda: r04c(ctx))
 
 
 def r04(ctx):
@@ -84,3 +86,59 @@ def r04(ctx):
     for nm in ('next_block', 'finish'):
         an_ = an(F.body('deduplication::chunking::Chunker::' + nm))
         ctx.check(bool(an_.calls(NEXT)), 'R04b', an_.path, 'uses next', '-', '%s obtains its chunks from Chunker::next' % nm)
+
+
+def _subtracts(e, what, frm):
+    """e contains a subtraction whose minuend side mentions `frm` and whose subtracted side mentions `what`"""
+    for z in flow.subtrees(e):
+        if z[0] == 'bin' and z[1] in ('Sub', 'SubO'):
+            if flow.mentions(z[3], what) and flow.mentions(z[2], frm):
+                return True
+            # a - b - c chains: (a - b) - c : `what` may sit one level down on the subtracted side of an inner Sub
+            if z[2][0] == 'bin' and z[2][1] in ('Sub', 'SubO') and flow.mentions(z[2][3], what) and flow.mentions(z[2][2], frm):
+                return True
+    return False
+
+
+def r04c(ctx):
+    from . import paths
+    from .core import edges_where
+    a = an(ctx.F.body(NEXT))
+    is_cur = lambda z: z[0] == 'field' and z[2] == 'cur_chunk_len'
+    is_min = lambda z: z[0] == 'field' and z[2] == 'minimum_chunk'
+    is_max = lambda z: z[0] == 'field' and z[2] == 'maximum_chunk'
+    is_data_len = lambda z: z[0] in ('len', 'call') and flow.mentions(z, lambda y: y == ('param', 2, 'data'))
+    # (i) the skip: the cur_chunk_len update guarded by cur_chunk_len + W < minimum_chunk
+    guard = edges_where(a, lambda op, l, r: op == 'Lt' and flow.mentions(l, is_cur) and flow.mentions(r, is_min))
+    ups = []
+    for b in sorted(a.cfg.reach0):
+        for si, st in enumerate(a.blocks[b]['s']):
+            u = paths.additive_update(a, st)
+            if u and u[0] == ('self', 'cur_chunk_len') and guard and a.cfg.must_pass(b, via_edges=guard):
+                ups.append((b, si, u[2]))
+    if ctx.check(len(ups) == 1, 'R04c', NEXT, 'skip site', '-', 'one minimum-size skip (cur_chunk_len += ..) under the cur_chunk_len + window < minimum_chunk guard'):
+        b, si, e = ups[0]
+        ok = e[0] == 'call' and sg(e[1]).endswith('min') and len(e[2]) == 2
+        if ok:
+            x, y = e[2]
+            rel = [z for z in (x, y) if _subtracts(z, is_cur, is_min)]
+            rem = [z for z in (x, y) if flow.mentions(z, is_data_len) and flow.mentions(z, lambda q: q[0] == 'local')]
+            ok = len(rel) == 1 and len(rem) == 1 and rel[0] is not rem[0]
+        ctx.check(ok, 'R04c', NEXT, 'skip bound', a.loc(b, si), 'the skip is min(minimum_chunk - cur_chunk_len - .., input still unconsumed)',
+                  'the minimum-size skip does not subtract the bytes already in the open chunk (or is not limited by the unconsumed input): boundaries then depend on how the stream is split across calls')
+        # the same amount advances the input cursor
+        cu = [u2 for bb in [b] for s2 in a.blocks[bb]['s'] for u2 in [paths.additive_update(a, s2)] if u2 and len(u2[0]) == 1 and flow.eqv(u2[2], e)]
+        ctx.check(len(cu) == 1, 'R04c', NEXT, 'skip cursor', a.loc(b, si), 'the input cursor advances by the same amount as cur_chunk_len')
+    # (ii) search window
+    nm = a.calls('gearhash::Hasher::next_match')
+    if ctx.check(len(nm) == 1, 'R04c', NEXT, 'next_match', '-', 'one boundary search'):
+        w = a.arg(nm[0], 1)
+        rg = dict(w[2][3]) if w[0] == 'index' and w[2][0] == 'agg' else {}
+        st, en = rg.get('start'), rg.get('end')
+        ok = w[0] == 'index' and w[1] == ('param', 2, 'data') and st is not None and st[0] == 'local' and en is not None and flow.mentions(en, is_data_len) and _subtracts(en, is_cur, is_max)
+        ctx.check(ok, 'R04c', NEXT, 'window', a.loc(nm[0]), 'the search window is data[consumed .. min(len, consumed + maximum_chunk - cur_chunk_len)]',
+                  'the boundary search window is not limited relative to the open chunk (maximum_chunk - cur_chunk_len)')
+        ctx.check(a.arg(nm[0], 2)[0] == 'field' and a.arg(nm[0], 2)[2] == 'mask' and flow.show(a.arg(nm[0], 0)) == 'self.hash', 'R04c', NEXT, 'mask', a.loc(nm[0]), 'the search uses the persistent rolling hash and the configured mask')
+    # (iii) forced cut compares open chunk + advance with maximum_chunk
+    fc = edges_where(a, lambda op, l, r: op == 'Ge' and flow.mentions(l, is_cur) and flow.mentions(r, is_max))
+    ctx.check(bool(fc), 'R04c', NEXT, 'forced cut', '-', 'a forced cut is decided on (advance + cur_chunk_len) >= maximum_chunk')
